@@ -290,6 +290,12 @@ def start_result(prog, rep):
             k, v = t[2][0][2]
             res = {a for a in alts(v)}
             okr = k in (("call", ("attr", params, "keys"), (), ()), params) and all(a[0] == "call" and a[1][0] == "func" and a[1][1].startswith(f"{FT}.fit_") for a in res) and len(res) == 2
+        elif t[0] == "comp" and t[1] == "dict" and t[2][0] == "tuple" and len(t[2][1]) == 2:
+            # {name: value for name, value in zip(self.parameters, popt)}: the pairs of one zip, key from the names, value from the result
+            kk, vv = t[2][1]
+            if kk[0] == "sub" and vv[0] == "sub" and kk[2] == vv[2] and kk[2][0] == "idx" and kk[2][2] == "zip":
+                res = {a for a in alts(vv[1])}
+                okr = kk[1] in (("call", ("attr", params, "keys"), (), ()), params) and all(a[0] == "call" and a[1][0] == "func" and a[1][1].startswith(f"{FT}.fit_") for a in res) and len(res) == 2
     rep.check(okr, "C14.start", f"{q}:result", fn.where(upd[0]) if upd else fn.where(), "self.parameters = dict(zip(self.parameters.keys(), popt))",
               "the optimiser's result must be zipped back onto the same parameter names in the same order")
     return upd
@@ -334,7 +340,7 @@ def protocol(prog, rep):
     if ok:
         s, t = call
         ok = tuple(pf.of(s)) == (("attr", SELF, "_may_fit"),) and t[2] in ((("attr", SELF, "x"), ("attr", SELF, "y")), (P("x"), P("y"))) \
-            and all(cf.dominates(cf.node(rec[k][0]), cf.node(cf.enclosing(s)[0][0])) and not pf.of(rec[k][0]) for k in rec)
+            and all(cf.dominates(cf.node(rec[k][0]), cf.node(cf.enclosing(s)[0][0] if cf.enclosing(s) else s)) and not pf.of(rec[k][0]) for k in rec)
     rep.check(ok, "C14.protocol", f"{fit.qualname}:record-then-test", fit.where(), "self.x, self.y = x, y recorded unconditionally before 'if self._may_fit: self._fit(x, y)'",
               "fit must record (x, y) BEFORE testing _may_fit (a premature call is replayed by callback) and fit only when _may_fit")
     # (iii) _fit notifies every dependent on every normal exit after the update
@@ -368,7 +374,11 @@ def protocol(prog, rep):
         hx = ("call", G("hasattr"), (SELF, ("const", "x")), ())
         hy = ("call", G("hasattr"), (SELF, ("const", "y")), ())
         extra = [l for l in pc.of(rf[0]) if l not in pc.of(en[0])]
-        ok = set(extra) <= {hx, hy} and hx in extra
+        def has_all(l):
+            # all(hasattr(self, name) for name in ("x", "y"))
+            return l[0] == "call" and l[1] == G("all") and any(w == G("hasattr") for w in walk(l)) and any(w == ("const", "x") for w in walk(l)) \
+                and any(w == ("const", "y") for w in walk(l))
+        ok = all(l in (hx, hy) or has_all(l) for l in extra) and (hx in extra or any(has_all(l) for l in extra))
     rep.check(ok, "C14.protocol", f"{cb.qualname}:replay", cb.where(), "_may_fit = True, then self.fit(self.x, self.y) whenever data were recorded",
               "callback must enable fitting and re-enter fit with the recorded data whenever fit was called before (hasattr x / y): otherwise a dependent "
               "fitted before its conditioner keeps parameters from the unfitted conditioner")
